@@ -5,3 +5,4 @@
 #include "qm_regex.h"
 #include "qm_json.h"
 #include "qm_fs.h"
+#include "qm_settings.h"
